@@ -352,6 +352,10 @@ def real_queries():
             "nested_twice": lambda d: ((d.a + 1).optimize() * d.b).optimize() - d.a,
             "bcast_two": lambda d: (d + d.sum()) * (d.max() + 1),
             "bcast_shared": lambda d: (lambda s: (d + s) + (d + (s + 1)))(d.sum() * 2),
+            # a one-partition member read both by an n-partition member (broadcast) and by a one-partition member of the
+            # same dimensionality (not "broadcast" for that consumer): it has to be keyed (name, 0) for both (seeded C14-m4)
+            "scalar_two_consumer_kinds": lambda d: (lambda m: (d.a - m) / (m + 0.5))(d.b.mean()),
+            "scalar_two_consumer_kinds2": lambda d: (lambda m: (d[["a", "b"]] * m) + (m * 2 + 1))(d.a.sum() + 1),
             "series_bcast": lambda d: d.a + d.a.sum(),
             "series_bcast_chain": lambda d: (d.a + (d.a.sum() + 1)) * d.b.max(),
             "cumsum_between": lambda d: (d[["a", "b"]] + 1).cumsum() + 1,
@@ -899,6 +903,19 @@ def run_stub_case(case):
     return None
 
 
+def _query_has_d60_shape(case):
+    from dask_expr._expr import Fused
+
+    try:
+        expr = dict(real_queries())[case["query"]]().expr
+        out = expr.optimize(fuse=True)
+        if case.get("twice"):
+            out = out.optimize(fuse=True)
+        return any(isinstance(e, Fused) and d60_shape(e) for e in out.walk())
+    except Exception:  # noqa: BLE001
+        return False
+
+
 def run_query_case(case):
     qs = dict(real_queries())
     try:
@@ -988,6 +1005,10 @@ def support(ctx, broken):
                 sig = {"kind": case["kind"], "what": msg.split(":")[0].split(" [")[0][:40]}
                 if "[" in msg.split(":")[0]:
                     sig["structure"] = msg.split("[")[1].split("]")[0]
+                if case["kind"] == "query" and sig["what"].startswith("graph execution raised only fused"):
+                    # the open finding D60 is the SHAPE "one-partition nested Fused inside an n-partition Fused";
+                    # a fused-only failure of a plan without that shape is a different defect (seeded C14-m4)
+                    sig["d60_shape"] = _query_has_d60_shape(case)
                 # keep searching: at most two failures per signature are reported (a known finding must not
                 # stop the search for other failures)
                 k = json.dumps(sig, sort_keys=True)
